@@ -14,6 +14,15 @@ ROOT = os.path.dirname(os.path.dirname(os.path.abspath(__file__)))
 REPO = os.environ.get("DRACO_REPO", "/repo")
 COQ = os.path.join(ROOT, "coq")
 BUILD = os.path.join(ROOT, ".cache", "work")
+if REPO != "/repo":
+    # scratch tree (mutation testing): private copy of the Coq development (the translator rewrites Gen/)
+    # and private work dir, so concurrent checks of the real tree are not disturbed.
+    _h = hashlib.md5((REPO + "\n").encode()).hexdigest()[:8]
+    COQ = os.path.join(ROOT, ".cache", "coq-" + _h)
+    BUILD = os.path.join(ROOT, ".cache", "work-" + _h)
+    os.makedirs(COQ, exist_ok=True)
+    subprocess.call(["rsync", "-a", "--delete", "--exclude", "Gen/*.v", os.path.join(ROOT, "coq") + "/", COQ + "/"])
+os.environ["VERIF_COQ_DIR"] = COQ
 NPROC = os.cpu_count() or 4
 
 # Axioms declared by Coq's standard library (or Flocq/Reals through it) that theorems of
@@ -78,7 +87,19 @@ def build_repo(ctx, flavour="O1"):
     if rc != 0:
         ctx.say("building /repo (%s) FAILED:\n%s" % (flavour, out[-3000:]))
         raise BuildFailure("repo build failed (%s)" % flavour, out)
-    return out.strip().splitlines()[-1]
+    libdir = out.strip().splitlines()[-1]
+    if flavour == "O1" and not getattr(ctx, "_translated", False):
+        # translator: regenerate coq/Gen/*.v from the current source (files rewritten only when changed)
+        rc, tout = sh([os.path.join(ROOT, "tools", "cxx2v.py")], timeout=900)
+        ctx._translated = True
+        try:
+            ctx.translator_status = json.loads(tout.strip().splitlines()[-1])
+        except Exception:
+            ctx.translator_status = {"error": tout[-2000:]}
+        bad = [k for k, v in ctx.translator_status.items() if not (isinstance(v, dict) and v.get("ok"))]
+        if rc != 0 or bad:
+            ctx.say("translator problems:", ctx.translator_status)
+    return libdir
 
 
 class BuildFailure(Exception):
@@ -144,7 +165,7 @@ def strip_coq_comments(s):
 def coq_build(ctx, targets, timeout=1500):
     """make -k the given .vo targets (paths relative to coq/). Returns (ok, log)."""
     coq_makefile()
-    with open(os.path.join(ROOT, ".cache", "coq.lock"), "w") as lk:
+    with open(os.path.join(ROOT, ".cache", "lock-" + os.path.basename(COQ)), "w") as lk:
         import fcntl
         fcntl.flock(lk, fcntl.LOCK_EX)
         rc, out = sh(["make", "-k", "-j%d" % NPROC] + targets, cwd=COQ, timeout=timeout)
@@ -428,7 +449,8 @@ def finish(ctx, level="proof", extra_cov=None, assumptions=None):
         "violations": len(ctx.violations),
         "known_findings_reported": ctx.known,
     }
-    json.dump(ev, open(os.path.join(ROOT, "evidence", ctx.prop + ".json"), "w"), indent=1)
+    evdir = os.path.join(ROOT, "evidence") if REPO == "/repo" else BUILD   # scratch trees never touch the real evidence
+    json.dump(ev, open(os.path.join(evdir, ctx.prop + ".json"), "w"), indent=1)
     for k in ctx.known:
         print("KNOWN-FINDING: property=%s %s" % (ctx.prop, k))
     for p, noinp in ctx.violations:
